@@ -631,6 +631,7 @@ class MQTTBaseProtocol(Protocol):
         # Changes state and execute deferreds
         log.debug("<== {packet:7} (code={code} session={flags})", packet="CONNACK", code=response.resultCode, flags=response.session)
         request = self.connReq
+        self.connReq = None     # now, not after the callbacks: an errback may call connect() again
         request.alarm.cancel()
         if response.resultCode == 0:
             self.state = self.CONNECTED
@@ -647,7 +648,6 @@ class MQTTBaseProtocol(Protocol):
             else:
                 msg = "Connection Refused, reserved return code"
             request.deferred.errback(MQTTStateError(response.resultCode, msg))
-        self.connReq = None     # to be garbage-collected
       
     # ------------------------------------------------------------------------
     
